@@ -410,6 +410,23 @@ def stores(report, db, S, tok, ref):
                                  'without checking the reply for an error '
                                  '[%s]' % (op, p.cond_text()))
                 continue
+            # nothing of the reply is consumed before the error check: an
+            # error reply need not be JSON at all, and res.json() on it
+            # raises a decoding error instead of the YggdrasilError that
+            # carries the status code
+            early = [e for e in evs[:chk[0]] if e.kind == 'call'
+                     and e.fn[0] == 'attr' and struct(e.fn[1]) == struct(req)
+                     and e.fn[2] in ('json', 'raise_for_status')]
+            if early:
+                bad = True
+                report.violation(
+                    R, 'reply:consumed-early:%s' % op, fi.path, early[0].node,
+                    fi.qualname, '%s calls .%s() on the reply before the '
+                    'error check: for an error status with a body that is '
+                    'not JSON it raises a decoding error, not a '
+                    'YggdrasilError with the status code' % (
+                        op, early[0].fn[2]))
+                continue
             got = {}
             for i, e in sts:
                 name = src(('attr', e.base, e.attr), fi)[len('self.'):]
